@@ -219,7 +219,7 @@ def gen(workdir, name: str, extends: str, consts: dict, *, invariants=(), proper
     workdir.mkdir(parents=True, exist_ok=True)
     mod = workdir / f"{name}.tla"
     cfg = workdir / f"{name}.cfg"
-    lines = [f"---- MODULE {name} ----", f"EXTENDS {extends}, TLC"]
+    lines = [f"---- MODULE {name} ----", f"EXTENDS {extends}, TLC, Json"]
     cfgl = []
     if consts:
         cfgl.append("CONSTANTS")
